@@ -1,5 +1,7 @@
 import AvoVerif.Props.C19
 import AvoVerif.Props.C19Tables
+import AvoVerif.Props.C19File
+import AvoVerif.Props.C19FileTables
 #print axioms Avo.Attr.attr_value
 #print axioms Avo.Attr.text_clause_value
 #print axioms Avo.Attr.attr_include
@@ -9,3 +11,18 @@ import AvoVerif.Props.C19Tables
 #print axioms Avo.Attr.text_clause_installed
 #print axioms Avo.Attr.consts_agree
 #print axioms Avo.Attr.attrname_agree
+#print axioms Avo.Attr.include_pass_shape
+#print axioms Avo.Attr.include_pass_keeps
+#print axioms Avo.Attr.include_pass_adds_only
+#print axioms Avo.Attr.include_pass_idem
+#print axioms Avo.Attr.include_pass_exact_spelling
+#print axioms Avo.Attr.include_pass_needed_only
+#print axioms Avo.Attr.hdrValue_macroEnv
+#print axioms Avo.Attr.acceptFile_sound
+#print axioms Avo.Attr.file_value
+#print axioms Avo.Attr.printed_file_ok
+#print axioms Avo.Attr.header_necessary
+#print axioms Avo.Attr.stdEnv_world
+#print axioms Avo.Attr.printed_file_ok_installed
+#print axioms Avo.Attr.printed_file_accepted_installed
+#print axioms Avo.Attr.header_necessary_installed
